@@ -966,6 +966,11 @@ impl Fam for TokMap {
         if r.chance(1, 2) {
             m.insert(format!("z{}", r.below(10)), String::gen(r, d));
         }
+        // keys sorting before the token: the token is then not the first key (outside K1) and the
+        // map must come out as the ordinary object
+        if r.chance(1, 3) {
+            m.insert((*r.pick(&["", "!", "#a", " ", "$", "$serde_json::private::Numbe"])).to_string(), String::gen(r, d));
+        }
         TokMap(m)
     }
     fn ty(e: &mut Env) -> Ty {
